@@ -256,7 +256,7 @@ package serf
 // decodeTags: the tags of a member are irrelevant to the membership properties; its own
 // contract (C32) is proved separately
 //@ func (s *Serf) decodeTags(buf []byte) (tags map[string]string)
-//@   trusted
+//@   requires receiver: s != nil
 //@ end
 
 //@ pure func dropped(s *Serf, t messageType) bool { return s.config.messageDropper(t) }
@@ -1059,6 +1059,77 @@ package serf
 //@   ensures response_carries_reply [C07]: mine && sentN(q.respCh) == old(sentN(q.respCh))+1 ==>
 //@       sentAt(q.respCh, old(sentN(q.respCh))).From == resp.From && sameSlice(sentAt(q.respCh, old(sentN(q.respCh))).Payload, resp.Payload)
 //@   ensures nothing_after_close [C07]: mine && old(q.closed) ==> sentN(q.respCh) == old(sentN(q.respCh)) && (q.ackCh != nil ==> sentN(q.ackCh) == old(sentN(q.ackCh)))
+//@ end
+
+// ---------------------------------------------------------------- no network input crashes a node (C09)
+// Thin contracts: just enough precondition (the node's own data structures are well formed) for the run-time safety
+// obligations (index, slice, nil, map write, type assertion, close, division) of every function that touches bytes
+// received from the network to be decided for arbitrary input. Decoded values are arbitrary inhabitants of their types.
+
+
+//@ func (p *pingDelegate) NotifyPingComplete(other *memberlist.Node, rtt time.Duration, payload []byte)
+//@   requires wf: p != nil && p.serf != nil && p.serf.config != nil && p.serf.coordClient != nil && p.serf.coordCache != nil && other != nil
+//@ end
+
+//@ func (m *mergeDelegate) validateMemberInfo(n *memberlist.Node) (err error)
+//@   requires wf: m != nil && m.serf != nil && m.serf.config != nil && n != nil
+//@ end
+//@ func (m *mergeDelegate) nodeToMember(n *memberlist.Node) (mem *Member, err error)
+//@   requires wf: m != nil && m.serf != nil && m.serf.config != nil && n != nil
+//@   ensures result: err == nil ==> mem != nil
+//@ end
+//@ func (m *mergeDelegate) NotifyAlive(peer *memberlist.Node) (err error)
+//@   requires wf: m != nil && m.serf != nil && m.serf.config != nil && m.serf.config.Merge != nil && peer != nil
+//@ end
+//@ func (m *mergeDelegate) NotifyMerge(nodes []*memberlist.Node) (err error)
+//@   requires wf: m != nil && m.serf != nil && m.serf.config != nil && m.serf.config.Merge != nil
+//@   requires nodes: forall(func(i int) bool { return 0 <= i && i < len(nodes) ==> nodes[i] != nil })
+//@   loop 1 vars ri=rangeindex int, members []*Member
+//@   loop 1 invariant bounds: -1 <= ri && ri < len(nodes) && len(members) == len(nodes) && arrayAllocated(members)
+//@ end
+
+// internal queries (name conflict and keyring operations): the payload is whatever the sender put there
+//@ pure func wfInternalQuery(s *serfQueries, q *Query) bool {
+//@   return s != nil && s.serf != nil && s.serf.config != nil && s.serf.config.MemberlistConfig != nil && q != nil && same(q.serf, s.serf) &&
+//@     wfMembers(s.serf) && hasMember(s.serf, s.serf.config.NodeName)
+//@ }
+//@ func (s *serfQueries) handleQuery(q *Query)
+//@   requires wf: wfInternalQuery(s, q)
+//@   # stream() hands over only queries whose name starts with the internal prefix
+//@   requires internal_name: len(q.Name) >= len(InternalQueryPrefix)
+//@ end
+//@ func (s *serfQueries) handleConflict(q *Query)
+//@   requires wf: wfInternalQuery(s, q)
+//@ end
+//@ func (s *serfQueries) handleInstallKey(q *Query)
+//@   requires wf: wfInternalQuery(s, q)
+//@ end
+//@ func (s *serfQueries) handleUseKey(q *Query)
+//@   requires wf: wfInternalQuery(s, q)
+//@ end
+//@ func (s *serfQueries) handleRemoveKey(q *Query)
+//@   requires wf: wfInternalQuery(s, q)
+//@ end
+//@ func (s *serfQueries) handleListKeys(q *Query)
+//@   requires wf: wfInternalQuery(s, q)
+//@   loop 1 vars ri=rangeindex int, response nodeKeyResponse
+//@   loop 1 invariant bounds: -1 <= ri && len(response.Keys) >= 0 && (nilSlice(response.Keys) ==> len(response.Keys) == 0)
+//@ end
+//@ func (s *Serf) writeKeyringFile() (err error)
+//@   requires wf: s != nil && s.config != nil && s.config.MemberlistConfig != nil
+//@   loop 1 vars i=rangeindex int, keysEncoded []string, keysRaw [][]byte
+//@   loop 1 invariant bounds: -1 <= i && len(keysEncoded) == len(keysRaw) && arrayAllocated(keysEncoded)
+//@ end
+//@ func (s *serfQueries) sendKeyResponse(q *Query, resp *nodeKeyResponse)
+//@   requires wf: wfInternalQuery(s, q) && resp != nil && allocated(resp) && len(resp.Keys) >= 0 && (nilSlice(resp.Keys) ==> len(resp.Keys) == 0)
+//@ end
+//@ func (s *serfQueries) keyListResponseWithCorrectSize(q *Query, resp *nodeKeyResponse) (raw []byte, qresp messageQueryResponse, err error)
+//@   requires wf: wfInternalQuery(s, q) && resp != nil && allocated(resp) && len(resp.Keys) >= 0 && (nilSlice(resp.Keys) ==> len(resp.Keys) == 0)
+//@   loop 1 vars i int
+//@   loop 1 invariant bounds: i <= len(resp.Keys) && (nilSlice(resp.Keys) ==> len(resp.Keys) == 0)
+//@ end
+//@ func decodeKeyRequest(q *Query, req *keyRequest) (err error)
+//@   requires wf: q != nil && req != nil
 //@ end
 
 // END-OF-CONTRACTS
